@@ -65,6 +65,22 @@ pub fn run(n: usize, rng: &mut Rng, out: &mut Out) {
         let _ = bits;
         out.emit(&req, &format!("{}", real_bits), true);
     }
+    // histories of add / remove on the REAL AsciiSet (remove of present and of ABSENT bytes, re-adds), read back with `has`
+    for i in 0..(n / 8 + 8) {
+        let base_new = rng.chance(1, 2);
+        let k = if i < 8 { i } else { rng.range(1, 14) };
+        let mut ops: Vec<u8> = vec![];
+        for _ in 0..k {
+            let b = match rng.below(4) { 0 => *rng.pick(b"%/?#az09"), 1 if !ops.is_empty() => ops[rng.below(ops.len())] & 0x7f, _ => rng.below(128) as u8 };
+            ops.push(if rng.chance(1, 2) { b | 0x80 } else { b });
+        }
+        let mut set = if base_new { AsciiSet::new() } else { AsciiSet::empty() };
+        for o in &ops { set = if o & 0x80 != 0 { set.remove(o & 0x7f) } else { set.add(*o) }; }
+        let mut real_bits: u128 = 0;
+        for b in 0u8..128 { if set.has(b) { real_bits |= 1u128 << b; } }
+        if ops.iter().any(|o| o & 0x80 != 0) { out.stats.count("set_remove"); }
+        out.emit(&format!("url setops {} {}", base_new as u8, hex(&ops)), &format!("{}", real_bits), ops.len() >= 2);
+    }
     for _ in 0..n {
         let s = gen_string(rng);
         let (set, bits) = gen_set(rng);
